@@ -271,13 +271,16 @@ PROPS = {
                       "database consistency inside the step may abort it (tolerated: partial correctness; C20 makes the abort harmless).",
     },
     "C06": {
-        "targets": ["spowtd.regrid:regrid", "spowtd.rise:compute_rise_offsets"],
+        "targets": ["spowtd.regrid:regrid", "spowtd.rise:compute_rise_offsets", "spowtd.load:populate_water_level"],
         "lean_thorough": ["LeastSquares.lean"],
         "bounded": [{"run": "bounded.curves_checks:run_C06",
                      "what": "planted-truth datasets (recession curve piecewise linear on the sampling lattice, constant specific yield) "
                              "through the real CLI from text files to master-curve tables: both master curves equal the truth up to a "
                              "constant, aligned pieces coincide at every shared level"}],
-        "level_text": "Lemma over contracts: Lean theorem c06_perfect_alignment (lean/LeastSquares.lean) - if offsets with zero objective exist "
+        "level_text": "The pieces handed to the fit lie on the underlying curves only if the gridded water level is the straight-line "
+                      "interpolation of adjacent measurements and never bridges a hole of the record: that is populate_water_level's "
+                      "proved contract (C10), a target of this check as well. "
+                      "Lemma over contracts: Lean theorem c06_perfect_alignment (lean/LeastSquares.lean) - if offsets with zero objective exist "
                       "and x minimises (C05), all shifted crossings at a level coincide - combined with the proved contracts of regrid (exact "
                       "crossings of the interpolant) and compute_rise_offsets (series = storage segments). That thresholds consistent with the "
                       "truth make classification find the planted intervals, and the CLI wiring, are exercised by the bounded stand-in.",
